@@ -23,6 +23,7 @@ name: spifopt_parse.compaction
 define: U_COMPACT
 src: options.c
 enforce: spifopt_parse
+replace: find_long_option, find_short_option, handle_arglist
 giflags: --restrict-function-pointer spifopt_parse.function_pointer_call.1/vopt_help --restrict-function-pointer spifopt_parse.function_pointer_call.2/vopt_abstract
 backend: sat
 loops: 1
@@ -72,6 +73,14 @@ const char *vg_old_ptr2, *vg_prog;
 #include "options.h"
 
 long w_argc, w_k, w_k2, w_s;
+
+/* callees that contain loops are represented by their contracts (proved in lookup.c / handlers.c):
+ * cbmc 6.11 DFCC aborts (goto_inline invariant) when it instruments a loop contract inside a callee
+ * of the enforced function.  In this unit their call sites are unreachable (main loop stops at once). */
+static spif_int32_t find_short_option(char opt) CONTRACT_find_short_option(opt != 0);
+static spif_int32_t find_long_option(spif_charptr_t opt) CONTRACT_find_long_option;
+static void handle_arglist(spif_int32_t n, spif_charptr_t val_ptr, unsigned char hasequal, spif_int32_t i, int argc, char *argv[])
+CONTRACT_handle_arglist_rest(argc - i <= 65535);
 
 void spifopt_parse(int argc, char *argv[])
 __CPROVER_requires(2 <= argc && argc <= 0x7ffffff0 && __CPROVER_rw_ok(argv, ((size_t) argc + 1) * sizeof(char *)))
